@@ -16,7 +16,7 @@ CHECKS = {
          "model checking + trace validation; the virtual clock scripts generation/call/drop costs", "5 C04"),
  "C05": ("Stats.tla / StatsTrace.tla / LoopTrace.tla", "TLC: MC_Stats proves the ordering theorems of Stats.tla over all small sample sequences; every Stats value computed by the real code (after scripted runs and from injected sample collections incl. empty, singleton, tied) is recomputed by Stats.tla (order statistics by rank sets, existential choice of the supplying samples) and every stored duration by Loop.tla (overhead subtraction, precision clamping)",
          "model checking + TLC as evaluator of the declarative statistics over recorded inputs", "5 C05"),
- "C09": ("AllocTrace.tla", "TLC trace validation of the per-thread event language (req inner ret)* with equal arguments/results: AllocProfiler<LogMock> under scripted request sequences (layouts, null results, fresh threads), and a whole process whose #[global_allocator] is Outer<AllocProfiler<Inner>> logging into a pre-allocated ring (thread start-up / tear-down included)",
+ "C09": ("Forward.tla / MC_Forward / AllocTrace.tla", "TLC: MC_Forward (the wrapper as a per-thread state machine with new / live / dying thread records and arbitrary answers of the wrapped allocator; three proposed shortcuts are expected-to-fail variants); TLC trace validation of the per-thread event language (req inner ret)* with equal arguments/results: AllocProfiler<LogMock> under scripted request sequences (layouts, null results, fresh threads), and a whole process whose #[global_allocator] is Outer<AllocProfiler<Inner>> logging into a pre-allocated ring (thread start-up / tear-down included)",
          "trace validation against the forwarding protocol automaton", "5 C09"),
  "C10": ("Tally.tla / MC_Alloc / AllocTrace.tla", "TLC: MC_Alloc proves that the incremental tally arithmetic equals the declarative definition (per-kind counts/sums, prefix maxima incl. the empty prefix) for all operation sequences up to the bound, two threads; trace validation: the real thread-local tally read back after every scripted operation on 1..8 interleaved threads equals Tally.tla's Apply; all short operation sequences of the model's domain are replayed through the real profiler",
          "model checking + trace validation + exhaustive replay of the model's small domain", "5 C10"),
@@ -28,7 +28,7 @@ CHECKS = {
          "model checking + trace validation; found and now guards finding F5", "5 C08"),
  "C11": ("BigNat.tla / Time.tla / MC_Time / NumTrace.tla", "TLC: MC_Time checks the algebraic laws of Time.tla's Elapsed (monotone in b, additive within 1 ps per term, translation invariant, zero for b < a) on the 64-bit boundary grid with arbitrary-precision BigNat arithmetic; every (a, b, f, result) of TscTimestamp::duration_since, every Duration conversion and every Timer::precision() measured against a quantised virtual clock is recomputed in TLA+ (NumTrace)",
          "model checking of the laws + TLC as exact evaluator over recorded calls (boundary grids, log-spaced and random 64-bit inputs, near-overflow products)", "5 C11"),
- "C12": ("Runner.tla / RunnerTrace.tla (registry rules); EntryList.tla / EntryListTrace.tla / EntryListL1Trace.tla (registration list)", "TLC trace validation on macro-generated crates (back-end M: 112 syntactic forms of #[divan::bench] / #[divan::bench_group], compiled against the real macros): the dumped registry (names, module paths, source positions, options, argument cases, types x consts instances) must equal what Runner.tla derives from the written program, nothing else registered; printed tree and executed cases as for C13; back-end R with permuted registration orders (incl. group modules holding only generic benchmarks); the lock-free registration list: TLC model checking of EntryList.tla (all interleavings of the atomic operations of concurrent push / iter) and TLC trace validation of the real list under the deterministic scheduler (sequential orders decide C12; concurrent executions are validated and reported as beyond the property)",
+ "C12": ("Runner.tla / RunnerTrace.tla (registry rules); EntryList.tla / EntryListTrace.tla / EntryListL1Trace.tla (registration list)", "TLC trace validation of legal-name programs (differential compile: a crate that compiles without the attributes must compile with them and list the written benchmarks) and on macro-generated crates (back-end M: 112 syntactic forms of #[divan::bench] / #[divan::bench_group], compiled against the real macros): the dumped registry (names, module paths, source positions, options, argument cases, types x consts instances) must equal what Runner.tla derives from the written program, nothing else registered; printed tree and executed cases as for C13; back-end R with permuted registration orders (incl. group modules holding only generic benchmarks); the lock-free registration list: TLC model checking of EntryList.tla (all interleavings of the atomic operations of concurrent push / iter) and TLC trace validation of the real list under the deterministic scheduler (sequential orders decide C12; concurrent executions are validated and reported as beyond the property)",
          "TLC compares registry dumps and runs of generated crates with the declarative program semantics", "5 C12"),
  "C13": ("Runner.tla / Filters.tla / RunnerTrace.tla", "TLC trace validation: for every generated program x filter set (positional / --skip / --exact, regex subset with explicit AST) the set of printed nodes and of invoked cases is compared with Runner.tla's declarative selection on full display paths (per argument case; parents iff a selected case lies below); FilterSet::is_match in-crate against Filters.tla",
          "TLC evaluates the declarative pipeline over generated programs executed by the real runner", "5 C13"),
@@ -38,13 +38,13 @@ CHECKS = {
          "TLC evaluates the declarative option resolution", "5 C15"),
  "C16": ("Runner.tla / Names.tla / RunnerTrace.tla", "TLC trace validation: every adjacent pair of printed siblings (groups, benchmarks, generic instances, argument rows, thread-count rows) must be in a permitted non-descending order of Names.tla/Runner.tla's documented comparison for --sort/--sortr kind|name|location; comparator functions in-crate against Names.tla; MC_Names checks the order laws of the specification operators",
          "TLC evaluates the documented order (set-valued where the statement leaves ties open)", "5 C16"),
- "C17": ("Runner.tla / RunnerTrace.tla", "TLC trace validation: the k-th executed case must be the benchmark instance, argument, const and type the k-th runnable printed row names (after filtering, sorting, reversal), and an argument list is evaluated at most once per process and shared by the generic instances",
+ "C17": ("Args.tla / MC_Args / Runner.tla / RunnerTrace.tla", "TLC: MC_Args (shared argument cell, every display list, lookup by identity, per-instantiation function; three shortcuts are expected-to-fail variants); trace validation: the k-th executed case must be the benchmark instance, argument, const and type the k-th runnable printed row names (after filtering, sorting, reversal), and an argument list is evaluated at most once per process and shared by the generic instances",
          "identity of (label, received value) pairs logged by generated benchmark bodies", "5 C17"),
  "C20": ("Runner.tla / Painter.tla / Columns.tla / RunnerTrace.tla", "TLC: MC_Painter (glyph state machine over all forests) and MC_Columns (padding state machine over all painting plans with thread-count rows: cells stay under the headings iff the initial span covers every label; the span of the pinned code is the expected-to-fail variant, defect F11); trace validation: the printed tree is parsed back from glyph groups alone (depth, branch/corner vs. later siblings, vertical bars vs. ancestors), must contain each selected group/benchmark/argument/thread-count row exactly once in sorted depth-first order, (ignored) marks only on ignored benchmarks, samples/iters cells equal to the statistics the runner computed, continuation rows attached to a benchmark, every cell-carrying line starts its cells under the first heading and keeps the column separators under those of the heading line while no value is wider than its column",
          "parse-back and comparison done by TLC on lexed lines", "5 C20"),
  "C18": ("BigNat.tla / Fmt.tla / MC_Fmt / NumTrace.tla", "TLC: MC_Fmt checks parse-back bound, digit budget, no exponent / trailing zeros of Fmt.tla over every value 0..12000 ps and all unit / 10^k boundary neighbourhoods up to 2^128-1; every Display string of FineDuration (default, precisions, widths), format_bytes and DisplayThroughput on generated inputs is compared with Fmt.tla (durations exactly; sizes and throughputs within the +-2^-50 relative interval the statement grants)",
          "model checking of the format's theorems + TLC as exact evaluator over recorded calls", "5 C18"),
- "C19": ("Loop.tla / LoopTrace.tla / MC_Loop", "TLC: MC_Loop (SizesArePowersOfTwo, ThresholdRule, EarlierSamplesDiscarded, BudgetCoversTuning); trace validation of tuned runs: every tuning step recomputed from the logged readings and the scripted precision",
+ "C19": ("Loop.tla / LoopTrace.tla / MC_Loop", "TLC: MC_Loop (SizesArePowersOfTwo, ThresholdRule, EarlierSamplesDiscarded, BudgetCoversTuning); trace validation of tuned runs: every tuning step recomputed from the logged readings and the scripted precision, no sample counted against sample_count while tuning, only the time budget may end a run that is still tuning",
          "model checking + trace validation", "5 C19"),
 }
 
